@@ -33,10 +33,50 @@ NULLP = ("ctor", "bytecode::heap::Pointer", "Null", ())
 _cache = {}
 
 
+CANON_BY_TYPE = [("&bytecode::program::Program", "program"), ("&mut bytecode::state::State", "state"),
+                 ("&bytecode::program::ConstantPoolIndex", "index"), ("&bytecode::program::LocalFrameIndex", "index"),
+                 ("&bytecode::program::Arity", "arguments"), ("&mut W", "output")]
+CANON_BY_POS = {
+    "dispatch_method": ["program", "state", "receiver_pointer", "method_name", "argument_pointers"],
+    "dispatch_object_method": ["program", "state", "receiver_pointer", "method_name", "argument_pointers"],
+    "eval_call_object_method": ["program", "state", "method", "method_name", "pointer", "argument_pointers"],
+    "dispatch_null_method": ["method_name", "argument_pointers"],
+    "dispatch_integer_method": ["receiver", "method_name", "argument_pointers"],
+    "dispatch_boolean_method": ["receiver", "method_name", "argument_pointers"],
+    "dispatch_array_method": ["array", "method_name", "argument_pointers"],
+    "dispatch_array_get_method": ["array", "method_name", "argument_pointers"],
+    "dispatch_array_set_method": ["array", "method_name", "argument_pointers"],
+    "bytecode::heap::ArrayInstance::get_element": ["self", "index"],
+    "bytecode::heap::ArrayInstance::set_element": ["self", "index", "value_pointer"],
+}
+
+
+def canonical_args(fx, name):
+    """parameter terms with canonical names (by position for the dispatch family, by type for eval_*), so
+    that renaming a parameter in /repo does not change any rule's verdict"""
+    b = fx.body(name if "::" in name else I + name)
+    if b is None:
+        return None
+    if name in CANON_BY_POS and len(CANON_BY_POS[name]) == len(b["params"]):
+        return [("var", n) for n in CANON_BY_POS[name]]
+    out = []
+    tys = [fx.tyname(t) or "" for t in b.get("param_tys", [])]
+    for i, p in enumerate(b["params"]):
+        nm = p.get("name", "p%d" % i)
+        t = tys[i] if i < len(tys) else ""
+        for ty, canon in CANON_BY_TYPE:
+            if t == ty and name.startswith("eval_"):
+                nm = canon
+        out.append(("var", nm))
+    return out
+
+
 def handler_paths(fx, name, args=None):
     key = (id(fx), name)
     if key not in _cache:
         try:
+            if args is None:
+                args = canonical_args(fx, name)
             ex, paths = run_fn(fx, name if "::" in name else I + name, args)
             _cache[key] = (ex, paths, None)
         except Exception as e:  # Unsupported etc.
